@@ -1,7 +1,10 @@
 // capacities of the container model for the parser layer-B harness
-namespace Theo { struct Token; struct Node; struct SyntaxError; }
+namespace Theo { struct Token; struct Node; struct SyntaxError; struct ParseError; struct MacroDefinition; }
 namespace std {
 template<> struct __cap<Theo::Token> { static constexpr int v = PB_W + 1; };
 template<> struct __cap<Theo::Node*> { static constexpr int v = 24; };
+template<> struct __cap<Theo::ParseError> { static constexpr int v = 3; };
+template<> struct __cap<Theo::MacroDefinition> { static constexpr int v = 1; };
+template<> struct __cap<unsigned int> { static constexpr int v = 1; };
 template<> struct __cap<Theo::SyntaxError> { static constexpr int v = 2 * PB_W + 4; };
 }
